@@ -48,7 +48,7 @@ def anchored_modules(prog, prop):
     for l in open(os.path.join(VERIF, "properties.jsonl")):
         rec = json.loads(l)
         if rec["id"] == prop:
-            files = [f for f in rec["anchors"]["files"] if f.endswith(".py")]
+            files = [f for f in rec["anchors"]["files"] if f.endswith((".py", ".pyx"))]
     mods = [m for m in prog.modules.values() if m.path in files]
     if not mods:
         raise AnalysisError("no anchored python module of %s found in the tree" % prop)
